@@ -89,9 +89,19 @@ class DoomedGen:
         if op is None or 'joliet' not in op:
             return None
         parent, _ = M.split(op['joliet'])
-        n = r.choice((65, 66, 100, 200))
-        pool = G.RRCHARS.replace('.', '')
-        op['joliet'] = M.join(parent, ''.join(r.choice(pool) for _ in range(n)))
+        if r.random() < 0.6:
+            n = r.choice((65, 66, 100, 200))
+            pool = G.RRCHARS.replace('.', '')
+            op['joliet'] = M.join(parent, ''.join(r.choice(pool) for _ in range(n)))
+        else:
+            # at most 64 code points but more than 64 UCS-2 units: characters beyond the BMP take two
+            n = r.choice((33, 34, 40, 50, 64))
+            nm = ''.join(r.choice(G.UNI_ASTRAL) for _ in range(n))
+            if r.random() < 0.5:
+                nm = nm[:n - 3] + 'a.b'
+                nm = r.choice(G.UNI_ASTRAL) * (33 - sum(1 for c in nm if ord(c) > 0xffff)) + nm if sum(1 for c in nm if ord(c) > 0xffff) < 33 else nm
+                nm = nm[:64]
+            op['joliet'] = M.join(parent, nm)
         where = ['iso', 'joliet', 'udf'].index('joliet')
         return _finish(op, 'joliet-name-longer-than-64:%s:%s' % (kind, '+'.join(ns for ns in ('iso', 'joliet', 'udf') if ns in op)), True, 'name-rule-in-2nd-namespace' if 'iso' in op else 'name-rule')
 
